@@ -147,9 +147,10 @@ def run_case(ctx, g, rng):
             k = rng.choice(["", "", "0", " ", "k"])
             ksyn = (rng.choice(["", "0"]),) if k == "k" else ()
             j = rng.choice(["j", "0j"])
-        recs = [spec.Rec(k, "http://x/a_", ksyn, ("http://x/b#",) if rng.random() < 0.5 else (), None)]
+        # (records may carry a pattern: recognised is recognised whatever the identifier looks like - seed C19-R)
+        recs = [spec.Rec(k, "http://x/a_", ksyn, ("http://x/b#",) if rng.random() < 0.5 else (), rng.choice([None, None, "^\\d{7}$", "^[a-z]+$"]))]
         if rng.random() < 0.4:
-            recs.append(spec.Rec(j, "http://y#", (), (), None))
+            recs.append(spec.Rec(j, "http://y#", (), (), rng.choice([None, "^\\d{7}$"])))
         conv, _how = gen.build(api, recs, rng.choice([":", ":", "/", "::"]), rng)
     kw = {"cutoff": cutoff, "metaprefix": meta}
     if delims is not None:
